@@ -1,7 +1,10 @@
 // unit ratio_to_float: rational/src/convert.rs `Repr::{to_f32, to_f64}` (C06: RBig / Relaxed -> f32 / f64 is the
-// correctly rounded value of numerator/denominator with a truthful flag), with the real `Approximation::and_then`
-// (base/src/approx.rs) and the real `Sign` operators.  `encode` is seen through the contract that the Kani group
-// base_bit proves for it.  Two KNOWN-FINDING regions are excluded by precondition (see the annotated copies).
+// correctly rounded value of numerator/denominator with a truthful flag, for ALL inputs: the quotient gets two guard bits
+// and a sticky bit and `encode` performs the only rounding -- lemma_sticky_rne_q), with the real
+// `Approximation::and_then` (base/src/approx.rs; no longer called by to_f32/to_f64, kept under contract) and the real
+// `Sign` operators.  `encode` is seen through the contract that the Kani group base_bit proves for it.
+// (History: before the repair of the double rounding and of the f64 flush-to-zero bound two known-finding regions
+// were excluded by precondition.)
 #![allow(unused_imports, unused_variables, dead_code, non_snake_case, unused_mut, unused_parens, unused_braces)]
 use vstd::prelude::*;
 use core::cmp::Ordering;
